@@ -56,6 +56,11 @@ type c06Case struct {
 	HJ bool `json:"hj,omitempty"`
 	// request URL /?pretty (indent branches of JSON / JSONP / XML)
 	Pretty bool `json:"pretty,omitempty"`
+	// the underlying writer REFUSES status codes outside 100..999 the way net/http's connection
+	// writer and httptest.ResponseRecorder do: the first WriteHeader with such a code panics
+	// before anything is recorded or sent.  Without it the writer accepts (and "sends") any code.
+	// (Ignored when a program registers a before-hook: see c06Strict.)
+	Strict bool `json:"strict,omitempty"`
 	// programs of EARLIER requests served before Ops through the same Echo on the same (recycled)
 	// context, each on its own fresh recording writer: Fresh=false consecutive e.ServeHTTP calls
 	// (sync.Pool hands the context back), Fresh=true e.NewContext once, then c.Reset before each
@@ -87,7 +92,9 @@ type c06Ev struct{ code, arg int }
 type c06Writer struct {
 	h        http.Header
 	calls    []int
-	sent     int // 0 = headers not out
+	out      bool // headers are out
+	sent     int  // with this status (any int: the writer accepts every code unless strict)
+	strict   bool // refuse codes outside 100..999 like net/http
 	sentCT   int
 	sentLoc  bool
 	sentDisp int // Content-Disposition in the header map at send time: 0 none, 1 attachment, 2 inline
@@ -211,7 +218,7 @@ func c06CTid(v string) int {
 }
 
 func (w *c06Writer) send(code int) {
-	w.sent = code
+	w.out, w.sent = true, code
 	w.sentCT = c06CTid(w.h.Get("Content-Type"))
 	w.sentLoc = w.h.Get("Location") != ""
 	w.sentDisp = c06DispID(w.h.Get("Content-Disposition"))
@@ -230,14 +237,48 @@ func c06DispID(v string) int {
 }
 func (w *c06Writer) Header() http.Header { return w.h }
 func (w *c06Writer) WriteHeader(code int) {
+	if w.strict && !w.out && c06Invalid(code) {
+		// net/http: checkWriteHeaderCode, first thing after the "already wrote" check
+		panic(fmt.Sprintf("invalid WriteHeader code %v", code))
+	}
 	w.calls = append(w.calls, code)
-	*w.trace = append(*w.trace, c06Ev{c06Hdr, code})
-	if w.sent == 0 {
+	*w.trace = append(*w.trace, c06Ev{c06Hdr, c06Enc(code)})
+	if !w.out {
 		w.send(code)
 	}
 }
+
+func c06Invalid(code int) bool { return code < 100 || code > 999 }
+
+// status codes on the wire to the model are naturals: a negative code -k travels as 1000000+k
+// (for the model a code is opaque apart from 0 = "no pending status", 300..308 for Redirect
+// and 100..999 = accepted by a refusing writer)
+func c06Enc(code int) int {
+	if code < 0 {
+		return 1000000 - code
+	}
+	return code
+}
+func wCode(code int) string { return wInt(c06Enc(code)) }
+
+// a refusing writer is combined only with programs that register no before-hook: with one,
+// the hook runs before the refused WriteHeader and again before the next commit (see
+// DELIVERY-r5, observation), which the hook clause of the property would report
+func c06Strict(c *c06Case) bool {
+	if !c.Strict {
+		return false
+	}
+	for _, ops := range c06Programs(c) {
+		for _, o := range ops {
+			if o.K == "bf" {
+				return false
+			}
+		}
+	}
+	return true
+}
 func (w *c06Writer) implicit() {
-	if w.sent == 0 {
+	if !w.out {
 		w.send(200)
 		*w.trace = append(*w.trace, c06Ev{c06Impl, 0})
 	}
@@ -331,7 +372,7 @@ func c06IsFlush(k string) bool { return k == "fl" || k == "rcfl" || k == "fefl" 
 func c06ModelOp(o c06Op) string {
 	switch o.K {
 	case "wh":
-		return wJoin("1", wInt(o.C))
+		return wJoin("1", wCode(o.C))
 	case "w":
 		return wJoin("2", wInt(o.N))
 	case "fl":
@@ -341,24 +382,24 @@ func c06ModelOp(o c06Op) string {
 	case "af":
 		return wJoin("5", wInt(o.H))
 	case "json", "jsonpretty":
-		return wJoin("6", wInt(o.C), wInt(o.N), wBool(!o.Bad))
+		return wJoin("6", wCode(o.C), wInt(o.N), wBool(!o.Bad))
 	case "blob":
-		return wJoin("7", wInt(o.C), wInt(o.CT), wInt(o.N))
+		return wJoin("7", wCode(o.C), wInt(o.CT), wInt(o.N))
 	case "nc":
-		return wJoin("8", wInt(o.C))
+		return wJoin("8", wCode(o.C))
 	case "redir":
-		return wJoin("9", wInt(o.C))
+		return wJoin("9", wCode(o.C))
 	case "stream":
-		p := []string{"10", wInt(o.C), wInt(len(o.Chunks))}
+		p := []string{"10", wCode(o.C), wInt(len(o.Chunks))}
 		for _, c := range o.Chunks {
 			p = append(p, wInt(c))
 		}
 		p = append(p, wBool(o.RErr))
 		return strings.Join(p, " ")
 	case "xml":
-		return wJoin("11", wInt(o.C), wInt(o.N))
+		return wJoin("11", wCode(o.C), wInt(o.N))
 	case "jsonp":
-		return wJoin("12", wInt(o.C), wInt(o.H), wInt(o.N))
+		return wJoin("12", wCode(o.C), wInt(o.H), wInt(o.N))
 	case "rcfl":
 		return "13"
 	case "fefl":
@@ -373,11 +414,11 @@ func c06ModelOp(o c06Op) string {
 		p = append(p, wBool(o.RErr))
 		return strings.Join(p, " ")
 	case "jsonpv":
-		return wJoin("17", wInt(o.C), wInt(o.H), wInt(o.N), wBool(!o.Bad))
+		return wJoin("17", wCode(o.C), wInt(o.H), wInt(o.N), wBool(!o.Bad))
 	case "xmlv", "xmlpretty":
-		return wJoin("18", wInt(o.C), wInt(c06XMLn(o)), wBool(!o.Bad))
+		return wJoin("18", wCode(o.C), wInt(c06XMLn(o)), wBool(!o.Bad))
 	case "render":
-		return wJoin("19", wInt(o.C), wInt(o.N), wBool(o.Mode == 2))
+		return wJoin("19", wCode(o.C), wInt(o.N), wBool(o.Mode == 2))
 	case "file", "filefs", "attach", "inline":
 		disp := map[string]int{"attach": 1, "inline": 2}[o.K]
 		ct := 7
@@ -420,6 +461,9 @@ func c06ExpectedFirstStatus(o c06Op, pending int) (int, bool) {
 	case "json", "jsonpretty":
 		if o.Bad {
 			return 0, false
+		}
+		if o.C == 0 {
+			return 200, true // the preset 0 is "no status": Write turns it into 200
 		}
 		return o.C, true
 	case "bf", "af", "unwrap", "hijack":
@@ -718,6 +762,10 @@ func c06RoundTrip(c *c06Case) string {
 			// comparison "client status == Response.Status" is meaningless there
 			return ""
 		}
+		if c06CarriesStatus(o) && c06Invalid(o.C) {
+			// net/http refuses the code with a panic: the connection is torn down
+			return ""
+		}
 		if o.K == "hijack" {
 			// on a real connection Hijack really takes the connection away from net/http
 			return ""
@@ -806,6 +854,7 @@ func c06Run(ci any) (res Result) {
 	e.Logger = lg
 
 	reqs := make([]*c06Req, len(progs))
+	strict := c06Strict(c)
 	cur := 0
 	oracle := ""
 	tags := map[string]bool{}
@@ -835,9 +884,9 @@ func c06Run(ci any) (res Result) {
 		}
 		for i, o := range ops {
 			prevCommitted, prevStatus, prevSize := r.Committed, r.Status, r.Size
-			prevSent, prevCalls, prevBody, prevWarns := w.sent, len(w.calls), w.body, lg.n
+			prevOut, prevSent, prevCalls, prevBody, prevWarns := w.out, w.sent, len(w.calls), w.body, lg.n
 			prevFlushes, prevHijacks := w.flushes, w.hijacks
-			if prevSent == 0 {
+			if !prevOut {
 				switch o.K {
 				case "attach":
 					pendingDisp = 1
@@ -851,15 +900,15 @@ func c06Run(ci any) (res Result) {
 				func(h int) {
 					cq := reqs[cur]
 					cq.trace = append(cq.trace, c06Ev{c06RunB, h})
-					if (r.Committed || cq.w.sent != 0) && cq.hookMsg == "" {
-						cq.hookMsg = fmt.Sprintf("before-hook %d ran with Committed=%v, headers out=%v", h, r.Committed, cq.w.sent != 0)
+					if (r.Committed || cq.w.out) && cq.hookMsg == "" {
+						cq.hookMsg = fmt.Sprintf("before-hook %d ran with Committed=%v, headers out=%v", h, r.Committed, cq.w.out)
 					}
 				},
 				func(h int) {
 					cq := reqs[cur]
 					cq.trace = append(cq.trace, c06Ev{c06RunA, h})
-					if (!r.Committed || cq.w.sent == 0) && cq.hookMsg == "" {
-						cq.hookMsg = fmt.Sprintf("after-hook %d ran with Committed=%v, headers out=%v", h, r.Committed, cq.w.sent != 0)
+					if (!r.Committed || !cq.w.out) && cq.hookMsg == "" {
+						cq.hookMsg = fmt.Sprintf("after-hook %d ran with Committed=%v, headers out=%v", h, r.Committed, cq.w.out)
 					}
 				},
 				func(code, h int) { rq.trace = append(rq.trace, c06Ev{code, h}) })
@@ -867,7 +916,26 @@ func c06Run(ci any) (res Result) {
 			rq.snaps = append(rq.snaps, c06Snap{r.Committed, r.Status, int(r.Size), len(w.calls), w.sent, w.body, w.flushes, lg.n, retN, retErr})
 
 			// ---------- model-free oracle: the property's clauses on what was recorded ----------
-			if panicked != nil {
+			// a commit the writer must refuse: this step's first status (from the program text) is
+			// outside 100..999, nothing is out yet, the writer is a refusing one
+			refused, mustRefuse, refusedCode := false, false, 0
+			if want, may := c06ExpectedFirstStatus(o, pendingStatus); strict && !prevOut && may && c06Invalid(want) {
+				mustRefuse, refusedCode = true, want
+				if s, ok := panicked.(string); ok && strings.HasPrefix(s, "invalid WriteHeader code") {
+					refused = true
+					tags["commit-refused-by-writer"] = true
+				}
+			}
+			if w.out && !prevOut && c06Invalid(w.sent) {
+				tags["invalid-status-code-sent"] = true
+			}
+			if refused {
+				// the panic of the underlying writer aborts the operation; the clauses below must
+				// hold in the state it left: nothing out, Committed false
+				if w.out || len(w.calls) != prevCalls {
+					fail(i, "a refusing writer recorded a WriteHeader call it refused")
+				}
+			} else if panicked != nil {
 				if c.NF && c06IsFlush(o.K) {
 					// Response.Flush on a writer that cannot flush panics by design — but only
 					// after it has committed: the clauses below must hold in the state it left
@@ -879,16 +947,19 @@ func c06Run(ci any) (res Result) {
 					fail(i, fmt.Sprintf("panic: %v", panicked))
 				}
 			}
+			if mustRefuse && !refused && !w.out && o.K != "copy" && panicked == nil {
+				fail(i, fmt.Sprintf("status %d was neither sent nor refused by the writer", refusedCode))
+			}
 			if rq.hookMsg != "" {
 				fail(i, rq.hookMsg)
 			}
 			if len(w.calls) > 1 {
 				fail(i, fmt.Sprintf("the underlying writer received WriteHeader %d times: %v", len(w.calls), w.calls))
 			}
-			if r.Committed != (w.sent != 0) {
-				fail(i, fmt.Sprintf("Committed=%v but headers out=%v (sent status %d)", r.Committed, w.sent != 0, w.sent))
+			if r.Committed != w.out {
+				fail(i, fmt.Sprintf("Committed=%v but headers out=%v (sent status %d)", r.Committed, w.out, w.sent))
 			}
-			if w.sent != 0 {
+			if w.out {
 				if r.Status != w.sent {
 					fail(i, fmt.Sprintf("Response.Status=%d but status %d was sent", r.Status, w.sent))
 				}
@@ -901,7 +972,7 @@ func c06Run(ci any) (res Result) {
 			} else if r.Size != 0 || w.body != 0 {
 				fail(i, "body bytes counted/written although the headers are not out")
 			}
-			if prevSent != 0 {
+			if prevOut {
 				opsAfterCommit++
 				if w.sent != prevSent || len(w.calls) != prevCalls {
 					fail(i, fmt.Sprintf("a status write after the headers went out reached the underlying writer (calls %v)", w.calls))
@@ -915,7 +986,7 @@ func c06Run(ci any) (res Result) {
 						fail(i, "ignored status write was not logged")
 					}
 				}
-			} else if w.sent != 0 {
+			} else if w.out {
 				// the headers went out in this step: first status wins
 				want, may := c06ExpectedFirstStatus(o, pendingStatus)
 				if !may {
@@ -929,6 +1000,8 @@ func c06Run(ci any) (res Result) {
 				tags["commit-by:"+o.K] = true
 			} else if o.K == "json" || o.K == "jsonpretty" {
 				pendingStatus = o.C // preset; goes out with the next implicit commit
+			} else if refused {
+				pendingStatus = refusedCode // the refused status write stays pending
 			}
 			if int(r.Size)-int(prevSize) != w.body-prevBody {
 				fail(i, fmt.Sprintf("Size grew by %d but %d bytes were written", int(r.Size)-int(prevSize), w.body-prevBody))
@@ -936,7 +1009,7 @@ func c06Run(ci any) (res Result) {
 			if o.K == "unwrap" && err != nil {
 				fail(i, "Response.Unwrap() does not return the wrapped writer")
 			}
-			if (o.K == "rcfl" || o.K == "fefl") && err != nil && !c.NF {
+			if (o.K == "rcfl" || o.K == "fefl") && err != nil && !c.NF && !refused {
 				fail(i, fmt.Sprintf("flushing through the optional interfaces failed although the underlying writer can flush: %v", err))
 			}
 			if o.K == "hijack" {
@@ -953,7 +1026,7 @@ func c06Run(ci any) (res Result) {
 					fail(i, fmt.Sprintf("Hijack on a writer without http.Hijacker returned %v, not http.ErrNotSupported", err))
 				}
 			}
-			if o.K == "w" {
+			if o.K == "w" && !refused {
 				if retN != w.body-prevBody || (err != nil) != (retN < o.N) {
 					fail(i, fmt.Sprintf("Write(%d bytes) returned (%d, err=%v) but the writer accepted %d", o.N, retN, err != nil, w.body-prevBody))
 				}
@@ -989,7 +1062,7 @@ func c06Run(ci any) (res Result) {
 	begin := func(i int) http.ResponseWriter {
 		cur = i
 		rq := &c06Req{}
-		rq.w = &c06Writer{h: http.Header{}, cap: c.Cap, trace: &rq.trace}
+		rq.w = &c06Writer{h: http.Header{}, cap: c.Cap, trace: &rq.trace, strict: strict}
 		if c.Cap < 0 {
 			rq.w.cap = -1
 		}
@@ -1037,7 +1110,7 @@ func c06Run(ci any) (res Result) {
 	for _, rq := range reqs {
 		obs = append(obs, wInt(len(rq.snaps)))
 		for _, s := range rq.snaps {
-			obs = append(obs, wBool(s.committed), wInt(s.status), wInt(s.size), wInt(s.ncalls), wInt(s.sent),
+			obs = append(obs, wBool(s.committed), wCode(s.status), wInt(s.size), wInt(s.ncalls), wCode(s.sent),
 				wInt(s.body), wInt(s.flushes), wInt(s.warns), wInt(s.retN), wBool(s.retErr))
 		}
 		obs = append(obs, wInt(rq.w.sentCT), wBool(rq.w.sentLoc), wInt(rq.w.sentDisp), wInt(len(rq.trace)))
@@ -1085,6 +1158,9 @@ func c06Run(ci any) (res Result) {
 	if c.Pretty {
 		tags["query-pretty"] = true
 	}
+	if strict {
+		tags["underlying-writer-refuses-invalid-codes"] = true
+	}
 	if firstTouch == "rcfl" || firstTouch == "fefl" {
 		tags["flush-first-via-ResponseController/FlushError"] = true
 	}
@@ -1100,7 +1176,7 @@ func c06Run(ci any) (res Result) {
 	if opsAfterCommit > 0 {
 		tags["ops-after-commit"] = true
 	}
-	if last.w.sent == 0 {
+	if !last.w.out {
 		tags["never-committed"] = true
 	}
 	var tl []string
@@ -1108,7 +1184,7 @@ func c06Run(ci any) (res Result) {
 		tl = append(tl, t)
 	}
 	nontrivial := opsAfterCommit > 0 && (nb+na > 0 || c06IsFlush(firstTouch) || tags["short-write"] || len(tl) >= 4)
-	if carried && last.w.sent != 0 {
+	if carried && last.w.out {
 		nontrivial = true
 	}
 	return Result{Ops: c06Ops(c), Obs: strings.Join(obs, " "), Oracle: oracle, Tags: tl, Nontrivial: nontrivial}
@@ -1124,7 +1200,7 @@ func c06Ops(c *c06Case) string {
 		cap = 1 << 30
 	}
 	progs := c06Programs(c)
-	parts := []string{wInt(p), wInt(cap), wBool(!c.NF), wInt(len(progs))}
+	parts := []string{wInt(p), wInt(cap), wBool(!c.NF), wBool(c06Strict(c)), wInt(len(progs))}
 	for _, ops := range progs {
 		parts = append(parts, wInt(len(ops)))
 		for _, o := range ops {
